@@ -17,10 +17,44 @@ import (
 
 func init() { register("C14", c14) }
 
-const c14T0 = int64(1704067200) // 2024-01-01T00:00:00Z
+// c14Cfg places the abstract timeline 0..6 on the real one: tick k is origin + k*unit seconds, and the
+// evaluation time is handed to the engine as a time.Time in loc (the same instant whatever loc is).
+type c14CfgT struct {
+	name   string
+	origin int64 // unix seconds of tick 0
+	unit   int64 // seconds per tick
+	loc    *time.Location
+}
 
-func c14Time(k int64) time.Time { return time.Unix(c14T0+k, 0).UTC() }
-func c14Stamp(k int64) string   { return c14Time(k).Format("2006-01-02T15:04:05") }
+var c14Cfg = c14CfgT{"seconds from 2024-01-01T00:00:00Z, evaluation time in UTC", 1704067200, 1, time.UTC}
+
+// c14Configs: the base timeline; the same in a fixed non-UTC zone; a 12-hour grid across the start and across
+// the end of daylight saving time in America/New_York with the evaluation time in that zone (windows of 24h
+// and 36h then span the transition) and, as a control, in UTC.
+func c14Configs() []c14CfgT {
+	cs := []c14CfgT{c14Cfg, {"seconds from 2024-01-01T00:00:00Z, evaluation time in +05:30", 1704067200, 1, time.FixedZone("IST", 19800)},
+		{"12h grid from 2024-03-09T00:00:00Z, evaluation time in UTC", 1709942400, 43200, time.UTC}}
+	if ny, err := time.LoadLocation("America/New_York"); err == nil {
+		cs = append(cs, c14CfgT{"12h grid from 2024-03-09T00:00:00Z (DST starts 2024-03-10T07:00Z), evaluation time in America/New_York", 1709942400, 43200, ny},
+			c14CfgT{"12h grid from 2024-11-02T00:00:00Z (DST ends 2024-11-03T06:00Z), evaluation time in America/New_York", 1730505600, 43200, ny})
+	}
+	return cs
+}
+
+func c14Time(k int64) time.Time { return time.Unix(c14Cfg.origin+k*c14Cfg.unit, 0).In(c14Cfg.loc) }
+func c14Stamp(k int64) string   { return c14Time(k).UTC().Format("2006-01-02T15:04:05") }
+
+// c14Dur writes a duration of d ticks the way a user would: whole days as "d", whole hours as "h", else seconds.
+func c14Dur(d int64) string {
+	sec := d * c14Cfg.unit
+	switch {
+	case sec != 0 && sec%86400 == 0:
+		return fmt.Sprintf("%dd", sec/86400)
+	case sec != 0 && sec%3600 == 0:
+		return fmt.Sprintf("%dh", sec/3600)
+	}
+	return fmt.Sprintf("%ds", sec)
+}
 
 // model interval in seconds on the timeline; negInf/posInf from c13.go
 func c14ToAst(i iv) ast.Interval {
@@ -41,7 +75,11 @@ func c14FromNanos(s, e int64) iv {
 		if x == negInf || x == posInf {
 			return x
 		}
-		return (x - c14T0*1e9) / 1e9
+		d := x - c14Cfg.origin*1e9
+		if d%(c14Cfg.unit*1e9) != 0 {
+			return x // off the grid: shown as raw nanoseconds, equal to no expected tick
+		}
+		return d / (c14Cfg.unit * 1e9)
 	}
 	return iv{f(s), f(e)}
 }
@@ -139,6 +177,21 @@ func c14(r *rt.Run) {
 		"'stored intervals' for annotation enumeration are read from the coalesced store itself (the store is the subject of C13)",
 	}
 	r.SetBudget(200*time.Second, 1800*time.Second)
+	cfgs := c14Configs()
+	r.Extra["timeline_configurations"] = len(cfgs)
+	for _, cfg := range cfgs {
+		c14Cfg = cfg
+		c14Pass(r)
+	}
+	c14Cfg = cfgs[0]
+	c14Relations(r)
+	r.Finish("timelines: " + fmt.Sprint(len(cfgs)) + " placements of the 0..6 grid (1 s ticks at 2024-01-01 with the evaluation time in UTC and in +05:30; 12 h ticks across the start and the end of daylight saving time with the evaluation time in America/New_York and in UTC, windows written 12h, 1d, 36h); " + c14Rule)
+}
+
+const c14Rule = "facts: every set of <= 2 intervals (28 finite + 4 half-bounded on a 0..6 s timeline; quick: half of the pairs) for a(1) plus a(2)@[3,3], coalesced; programs: 4 operators x bounds {now,0s..3s}x{0s..3s} (ordered and swapped) at every evaluation time 0..6 s, " +
+	"an operator combined with a variable annotation on the same literal (4 operators x 8 windows, into head arguments and into a head annotation), variable annotations, head annotations (copy, now, open, fixed), two-rule chains in both clause orders; interval relations: every ordered pair of the 15 intervals over 0..4 x 9 relations; non-trivial = cases whose expected result is non-empty"
+
+func c14Pass(r *rt.Run) {
 	factSets := c14FactSets(r.Thorough())
 	r.Extra["fact_sets"] = len(factSets)
 	var progs []c14Prog
@@ -147,7 +200,7 @@ func c14(r *rt.Run) {
 		if d < 0 {
 			return "now"
 		}
-		return fmt.Sprintf("%ds", d)
+		return c14Dur(d)
 	}
 	for _, op := range []string{"<-", "[-", "<+", "[+"} {
 		for _, d1 := range append([]int64{-1}, durs...) {
@@ -169,10 +222,10 @@ func c14(r *rt.Run) {
 				if d1 > d2 {
 					continue
 				}
-				progs = append(progs, c14Prog{src: c14Decls + fmt.Sprintf("h(X,S,E) :- %s[%ds, %ds] a(X)@[S,E].\n", op, d1, d2), op: op, d1: d1, d2: d2, kind: "operator-annot"})
+				progs = append(progs, c14Prog{src: c14Decls + fmt.Sprintf("h(X,S,E) :- %s[%s, %s] a(X)@[S,E].\n", op, c14Dur(d1), c14Dur(d2)), op: op, d1: d1, d2: d2, kind: "operator-annot"})
 			}
 		}
-		progs = append(progs, c14Prog{src: c14Decls + fmt.Sprintf("h(X)@[S,E] :- %s[0s, 1s] a(X)@[S,E].\n", op), op: op, d1: 0, d2: 1, kind: "operator-annot-head"})
+		progs = append(progs, c14Prog{src: c14Decls + fmt.Sprintf("h(X)@[S,E] :- %s[0s, %s] a(X)@[S,E].\n", op, c14Dur(1)), op: op, d1: 0, d2: 1, kind: "operator-annot-head"})
 	}
 	progs = append(progs,
 		c14Prog{src: c14Decls + "h(X,S,E) :- a(X)@[S,E].\n", kind: "annot-vars"},
@@ -206,16 +259,13 @@ func c14(r *rt.Run) {
 			}
 		}
 	})
-	c14Relations(r)
-	r.Finish("facts: every set of <= 2 intervals (28 finite + 4 half-bounded on a 0..6 s timeline; quick: half of the pairs) for a(1) plus a(2)@[3,3], coalesced; programs: 4 operators x bounds {now,0s..3s}x{0s..3s} (ordered and swapped) at every evaluation time 0..6 s, " +
-		"an operator combined with a variable annotation on the same literal (4 operators x 8 windows, into head arguments and into a head annotation), variable annotations, head annotations (copy, now, open, fixed), two-rule chains in both clause orders; interval relations: every ordered pair of the 15 intervals over 0..4 x 9 relations; non-trivial = cases whose expected result is non-empty")
 }
 
 func c14Case(r *rt.Run, f c14Facts, p *c14Prog, T int64) {
 	r.Add("states", 1)
 	r.Add("evaluations", 1)
 	r.Add("transitions", 1)
-	w := map[string]any{"facts": f.text, "program": p.src, "eval_time_s": T}
+	w := map[string]any{"facts": f.text, "program": p.src, "eval_time_s": T, "timeline": c14Cfg.name}
 	ts, err := c14Store(f)
 	if err != nil {
 		panic(err)
@@ -280,7 +330,7 @@ func c14Case(r *rt.Run, f c14Facts, p *c14Prog, T int64) {
 		if p.d1 <= p.d2 {
 			want = eval(p.d1, p.d2)
 			if !same(got, want) {
-				r.Violate("operator-"+opName(p.op), fmt.Sprintf("facts %s, T=%ds, %s: derived h for %v, expected %v (window measured %s from T)", f.text, T, strings.TrimSpace(strings.TrimPrefix(p.src, c14Decls)), keysOf(got), keysOf(want), map[bool]string{true: "back", false: "forward"}[past]), w)
+				r.Violate("operator-"+opName(p.op), fmt.Sprintf("[%s] facts %s, T=%d, %s: derived h for %v, expected %v (window measured %s from T)", c14Cfg.name, f.text, T, strings.TrimSpace(strings.TrimPrefix(p.src, c14Decls)), keysOf(got), keysOf(want), map[bool]string{true: "back", false: "forward"}[past]), w)
 			}
 		} else {
 			// A window written with the larger offset first is not defined by the documentation; it is outside
@@ -457,7 +507,7 @@ func c14Relations(r *rt.Run) {
 		{":interval:equals", func(a, b iv) bool { return a == b }, ":interval:equals"},
 	}
 	pairOf := func(i iv) ast.Constant {
-		s, e := ast.Number((c14T0+i.s)*1e9), ast.Number((c14T0+i.e)*1e9)
+		s, e := ast.Number((c14Cfg.origin+i.s*c14Cfg.unit)*1e9), ast.Number((c14Cfg.origin+i.e*c14Cfg.unit)*1e9)
 		return ast.Pair(&s, &e)
 	}
 	for _, rl := range rels {
